@@ -8,11 +8,11 @@ export CARGO_TARGET_DIR=/tmp/wt-verify-target CARGO_NET_OFFLINE=true
 cd "$wt"
 test_name=$(python3 -c "import json,re,sys; m=json.load(open('$d/meta.json')); c=m['demo_cmd']; print(c.split()[-1])")
 pkg=$(python3 -c "import json,re; c=json.load(open('$d/meta.json'))['demo_cmd']; m=re.search(r'-p (\S+)',c); print(m.group(1) if m else 'teos')")
-git apply "$d/demo.diff" || { echo "demo.diff does not apply"; exit 2; }
+git apply --3way "$d/demo.diff" || { echo "demo.diff does not apply"; exit 2; }
 cargo test --offline -p $pkg --lib "$test_name" > "$d/verify_demo_without_patch.log" 2>&1; r1=$?
-git apply "$d/patch.diff" || { echo "patch.diff does not apply"; exit 2; }
+git apply --3way "$d/patch.diff" || { echo "patch.diff does not apply"; exit 2; }
 cargo test --offline -p $pkg --lib "$test_name" > "$d/verify_demo_with_patch.log" 2>&1; r2=$?
-git apply -R "$d/demo.diff"
+git apply -R --3way "$d/demo.diff" || git checkout -- . 
 cargo test --offline --workspace > "$d/verify_suite_with_patch.log" 2>&1; r3=$?
 cd /; git -C /repo worktree remove --force "$wt"
 echo "$name: demo without patch rc=$r1 (want 0); demo with patch rc=$r2 (want !=0); suite with patch rc=$r3 (want 0)"
